@@ -22,12 +22,17 @@ def env_sx(tracer, env):
                   "1" if env.terminated else "0", "1" if env.truncated else "0", str(len(env.history)))
 
 
-def run_episode(tracer, d, cfg, policy, max_steps=400, env_hook=None, seed=None):
-    """Returns (env or None, end, actions, env_trace)."""
+def run_episode(tracer, d, cfg, policy, max_steps=400, env_hook=None, seed=None, reuse_env=None):
+    """Returns (env or None, end, actions, env_trace). reuse_env: another episode on that environment object (reset)
+    instead of a new environment."""
     actions = []
     et = []
     try:
-        env = trace.make_env(d, cfg, tracer, seed=seed)
+        if reuse_env is not None:
+            env = reuse_env
+            env.reset()
+        else:
+            env = trace.make_env(d, cfg, tracer, seed=seed)
     except jsl.StepBudgetExceeded:
         return None, "budget", actions, et
     except trace.ImplRaised as e:
@@ -117,13 +122,29 @@ def rerun_episode(env, policy, max_steps=400, env_hook=None, seed=None):
 
 
 def run_batch(seed, n, profiles=("mixed",), ps=(0.1, 0.5, 0.9, 1.0), tracer=None, custom_buffers_p=0.0,
-              trunc_p=0.3, env_hook=None, max_steps=400, gen_kw=None, phased_p=0.0, early_p=0.6, big_p=0.0):
+              trunc_p=0.3, env_hook=None, max_steps=400, gen_kw=None, phased_p=0.0, early_p=0.6, big_p=0.0, reuse_p=0.0):
     rng = random.Random(seed)
     tracer = tracer or trace.Tracer()
     tracer.want_pre = True
     base = jsl.load_config()
     eps = []
+    prev = None       # (env, d, feats, cfgkw, cfg) of the last episode that ended regularly
     for k in range(n):
+        if reuse_p and prev is not None and rng.random() < reuse_p:
+            # another episode on the SAME environment object (reset): counters, caches and simulators must start afresh
+            env0, d, feats0, cfgkw, cfg = prev
+            feats = dict(feats0, reused_env=True)
+            p = ps[k % len(ps)]
+            feats["p"] = p
+            ep = Episode(k, d, feats, cfgkw, None)
+            ep.first = len(tracer.records)
+            pol = gen.PhasedPolicy(rng) if (phased_p and rng.random() < phased_p) else gen.Policy(rng, p)
+            env, end, actions, et = run_episode(tracer, d, cfg, pol, max_steps=max_steps, env_hook=env_hook, reuse_env=env0)
+            ep.last = len(tracer.records)
+            ep.end, ep.actions, ep.env_trace = end, actions, et
+            eps.append(ep)
+            prev = (env, d, feats0, cfgkw, cfg) if (env is not None and end in ("terminated", "truncated")) else None
+            continue
         prof = profiles[k % len(profiles)]
         kw = dict(gen_kw or {})
         if big_p and prof not in ("race", "zerotravel") and rng.random() < big_p:
@@ -154,6 +175,8 @@ def run_batch(seed, n, profiles=("mixed",), ps=(0.1, 0.5, 0.9, 1.0), tracer=None
         ep.last = len(tracer.records)
         ep.end, ep.actions, ep.env_trace = end, actions, et
         eps.append(ep)
+        prev = (env, d, feats, cfgkw, cfg) if (not end.startswith("unsupported") and env is not None
+                                               and end in ("terminated", "truncated")) else None
     return tracer, eps
 
 
